@@ -364,31 +364,41 @@ structure Leaf where
   fb : Target
   deriving Repr, DecidableEq
 
-/-- `BTreeMap<String, LeafRouter>`: insertion keeping the keys sorted (byte order). -/
-def leafUpsert (path : List Char) (mk : Unit → Leaf) (upd : Leaf → Leaf) : List Leaf → List Leaf
-  | [] => [upd (mk ())]
-  | l :: ls =>
-    if l.path = path then upd l :: ls
-    else if Pxv.Domain.ltChars path l.path then upd (mk ()) :: l :: ls
-    else l :: leafUpsert path mk upd ls
+/-- `BTreeMap<String, LeafRouter>::entry(path)`: the map is kept as an association list with
+    distinct keys (update the entry if the key is there, else add it); `sortLeaves` below gives the
+    iteration order. -/
+def leafUpsert (path : List Char) (mk : Leaf) (upd : Leaf → Leaf) : List Leaf → List Leaf
+  | [] => [upd mk]
+  | l :: ls => if l.path = path then upd l :: ls else l :: leafUpsert path mk upd ls
+
+/-- One step of the loop that fills `path2method_router`. -/
+def leafStep (x : Handler × Fb) (acc : List Leaf) : List Leaf :=
+  match x.1.guard with
+  | .any =>
+    -- `insert(path, LeafRouter::new(*id))`: replaces whatever was there
+    leafUpsert x.1.path { path := x.1.path, arms := [], fb := .handler x.1.h }
+      (fun _ => { path := x.1.path, arms := [], fb := .handler x.1.h }) acc
+  | .some ms =>
+    -- `entry(path).or_insert_with(|| LeafRouter::new(fallback)).handler_id2methods.insert(id, methods)`
+    leafUpsert x.1.path { path := x.1.path, arms := [], fb := .fallback x.2.f }
+      (fun l => { l with arms := l.arms ++ [(x.1.id, x.1.h, ms)] }) acc
 
 /-- The loop that fills `path2method_router` from the handlers (in id order). -/
 def buildLeaves : List (Handler × Fb) → List Leaf → List Leaf
   | [], acc => acc
-  | (h, fb) :: rest, acc =>
-    match h.guard with
-    | .any =>
-      -- `insert(path, LeafRouter::new(*id))`: replaces whatever was there
-      buildLeaves rest (leafUpsert h.path (fun _ => { path := h.path, arms := [], fb := .handler h.h })
-        (fun _ => { path := h.path, arms := [], fb := .handler h.h }) acc)
-    | .some ms =>
-      buildLeaves rest (leafUpsert h.path (fun _ => { path := h.path, arms := [], fb := .fallback fb.f })
-        (fun l => { l with arms := l.arms ++ [(h.id, h.h, ms)] }) acc)
+  | x :: rest, acc => buildLeaves rest (leafStep x acc)
 
 /-- `for (path, fallback_id) in path_catchall2fallback_id { entry(path).or_insert_with(..) }`. -/
 def addCatchAlls : List PathFb → List Leaf → List Leaf
   | [], acc => acc
-  | p :: ps, acc => addCatchAlls ps (leafUpsert p.path (fun _ => { path := p.path, arms := [], fb := .fallback p.fb.f }) id acc)
+  | p :: ps, acc => addCatchAlls ps (leafUpsert p.path { path := p.path, arms := [], fb := .fallback p.fb.f } id acc)
+
+/-- Iteration order of the `BTreeMap`: keys ascending (byte order). -/
+def insertLeaf (x : Leaf) : List Leaf → List Leaf
+  | [] => [x]
+  | l :: ls => if Pxv.Domain.ltChars x.path l.path then x :: l :: ls else l :: insertLeaf x ls
+
+def sortLeaves (ls : List Leaf) : List Leaf := ls.foldr insertLeaf []
 
 /-- The generated `fn router()`: `insert(path, route_id).unwrap()` for every key, in key order. -/
 def runtimeInserts : List Leaf → Nat → Router → Except InsErr Router
@@ -425,7 +435,7 @@ def PathRouter.new (comps : List Comp) (fbsAll : List Fb) : Except Reject PathRo
             match methodFallbackCheck hfs {} [] with
             | .error e => .error e
             | .ok () =>
-              let leaves := addCatchAlls pfbs (buildLeaves hfs [])
+              let leaves := sortLeaves (addCatchAlls pfbs (buildLeaves hfs []))
               -- the generated server inserts the keys in this order: it must succeed as well
               match runtimeInserts leaves 0 {} with
               | .error _ => .error .runtimeOrder
@@ -455,6 +465,17 @@ def compDom : Comp → Option (List Char)
   | .handler x => x.dom
   | .fallback x => x.dom
 
+/-- `for (domain, components) in domain2components { PathRouter::new(&components, …)? }`. -/
+def buildDomains (comps : List Comp) (fbsAll : List Fb) : List (List Char) → Except Reject (List DomainEntry)
+  | [] => .ok []
+  | g :: gs =>
+    match PathRouter.new (comps.filter (fun c => compDom c = some g)) fbsAll with
+    | .error e => .error e
+    | .ok r =>
+      match buildDomains comps fbsAll gs with
+      | .error e => .error e
+      | .ok ds => .ok ({ guard := g, pattern := Pxv.Domain.pattern g, router := r } :: ds)
+
 /-- `Router::new`, `DomainRouter::new`. -/
 def routerNew (st : St) : Except Reject Table :=
   let hs := handlersOf st.comps
@@ -472,15 +493,7 @@ def routerNew (st : St) : Except Reject Table :=
     match scopeFallback fbsAll [] with
     | none => .error .panic
     | some rootFb =>
-      let build : List (List Char) → List DomainEntry → Except Reject (List DomainEntry) :=
-        fun gs acc0 => gs.foldl (fun acc g =>
-          match acc with
-          | .error e => .error e
-          | .ok ds =>
-            match PathRouter.new (st.comps.filter (fun c => compDom c = some g)) fbsAll with
-            | .error e => .error e
-            | .ok r => .ok (ds ++ [{ guard := g, pattern := Pxv.Domain.pattern g, router := r }])) (.ok acc0)
-      match build guards [] with
+      match buildDomains st.comps fbsAll guards with
       | .error e => .error e
       | .ok ds =>
         -- `detect_domain_conflicts` (registration order), then the order the generated
@@ -551,6 +564,68 @@ def Table.dispatch (t : Table) (req : Request) : Outcome :=
         match ds[i]? with
         | some d => d.router.dispatch req.method req.path
         | none => .fallback rootFb []
+
+/-! ## Specification side: what it means for a table entry to match -/
+
+def Leaf.toks (l : Leaf) : List Tok := Pxv.Matchit.toks l.path
+
+/-- The entry's path pattern matches the request path (documented meaning: static text equal, a
+    `{param}` takes a non-empty run inside one segment, followed by its static suffix, a trailing
+    `{*param}` takes a non-empty rest). -/
+def Leaf.Matches (l : Leaf) (path : List Char) : Prop := matchTok l.toks path = true
+
+/-- The route set of the generated `matchit` router. -/
+def PathRouter.rset (r : PathRouter) : RSet := r.routes.map (fun q => (q.1, Pxv.Matchit.toks q.2))
+
+/-- `l` is an entry of `r` that matches `path` and is at least as specific as every other entry that
+    matches it. -/
+def MostSpecific (r : PathRouter) (l : Leaf) (path : List Char) : Prop :=
+  l ∈ r.leaves ∧ l.Matches path ∧ ∀ l' ∈ r.leaves, l'.Matches path → specGE l.toks l'.toks = true
+
+/-- The handlers registered for an entry that accept the method. -/
+def Leaf.accepting (l : Leaf) (m : String) : List Nat :=
+  (l.arms.filter (fun a => a.2.2.contains m)).map (fun a => a.2.1)
+
+/-- The path routers of a table. -/
+def Table.pathRouters : Table → List PathRouter
+  | .agnostic r => [r]
+  | .domains ds _ => ds.map (·.router)
+
+def DomainEntry.toks (d : DomainEntry) : List Tok := Pxv.Matchit.toks d.pattern
+
+/-- The route set of the generated `domain_router()`. -/
+def domRset (ds : List DomainEntry) : RSet :=
+  ((List.range ds.length).zip (ds.map (·.pattern))).map (fun q => (q.1, Pxv.Matchit.toks q.2))
+
+/-- `d` is a domain entry whose pattern matches the (normalised) host and is at least as specific
+    as every other one that does. -/
+def MostSpecificDomain (ds : List DomainEntry) (d : DomainEntry) (host : List Char) : Prop :=
+  d ∈ ds ∧ matchTok d.toks host = true ∧ ∀ d' ∈ ds, matchTok d'.toks host = true → specGE d.toks d'.toks = true
+
+/-- What the property asks of the path level: the request is answered by the method arms of a most
+    specific entry that matches the path; if no entry matches, by the router's root fallback, which
+    is handed no allowed methods. -/
+inductive Routed (r : PathRouter) (m : String) (path : List Char) : Outcome → Prop where
+  | entry (l : Leaf) : MostSpecific r l path → Routed r m path (l.dispatch m)
+  | none : (∀ l ∈ r.leaves, ¬ l.Matches path) → Routed r m path (.fallback r.rootFb [])
+
+/-- … and of the whole table: with domain guards, the path router of a most specific guard that the
+    `Host` fits decides; without a fitting guard (or without a usable `Host`), the top-level
+    fallback. -/
+inductive TableRouted : Table → Request → Outcome → Prop where
+  | agnostic {r : PathRouter} {req : Request} {o : Outcome} :
+      Routed r req.method req.path o → TableRouted (.agnostic r) req o
+  | domain {ds : List DomainEntry} {f : Option Nat} {req : Request} {o : Outcome} {h : List Char} (d : DomainEntry) :
+      req.host.bind hostOf = some h → MostSpecificDomain ds d (Pxv.Domain.normHost h) →
+      Routed d.router req.method req.path o → TableRouted (.domains ds f) req o
+  | noDomain {ds : List DomainEntry} {f : Option Nat} {req : Request} :
+      (∀ h, req.host.bind hostOf = some h → ∀ d ∈ ds, matchTok d.toks (Pxv.Domain.normHost h) = false) →
+      TableRouted (.domains ds f) req (.fallback f [])
+
+/-- The side condition of the `matchit` model, for every router of the table. -/
+def Table.NoNestedSuffix : Table → Prop
+  | .agnostic r => Pxv.Matchit.NoNestedSuffix r.rset
+  | .domains ds _ => Pxv.Matchit.NoNestedSuffix (domRset ds) ∧ ∀ d ∈ ds, Pxv.Matchit.NoNestedSuffix d.router.rset
 
 /-! ## `runtime/pavex/src/router` -/
 
